@@ -92,6 +92,9 @@ class SourceIndex:
     def lookup(self, fn):
         fn = inspect.unwrap(fn)
         code = fn.__code__
+        memo = self.__dict__.setdefault("_memo", {})
+        if code in memo:
+            return memo[code]
         path = code.co_filename
         src, tree, idx = self._load(path)
         cands = idx.get(fn.__qualname__, [])
@@ -108,6 +111,7 @@ class SourceIndex:
         name = fn.__module__ + "." + fn.__qualname__
         self.used[name] = {"sha256": hashlib.sha256(seg.encode()).hexdigest(),
                            "file": path, "line": node.lineno}
+        memo[code] = node
         return node
 
 
@@ -1041,7 +1045,7 @@ class Interp:
             return x == y
         if isinstance(x, OB) and isinstance(y, OB):
             return x.t == y.t
-        if (isinstance(x, OB) and isinstance(y, IB)) or (isinstance(y, OB) and isinstance(x, IB)):
+        if k > 8 and ((isinstance(x, OB) and isinstance(y, IB)) or (isinstance(y, OB) and isinstance(x, IB))):
             # opaque vs integer encoding of the same width: equal bytes <=> equal integer values
             ob, ib = (x, y) if isinstance(x, OB) else (y, x)
             f = B_int_le if ib.end == "little" else B_int_be
